@@ -309,6 +309,42 @@ def rule_one(S):
          'derived from the stored word' if res['created'] else 'created_value_ptr is not the body of the stored word', loc=f.loc)
 
 
+def rule_fslot(S, rule='R-FSLOT'):
+    """A free slot holds no value pointer: the insert path (set_value without out-pointer) examines the word the slot
+    holds and frees what it finds when that block's need_delete flag is set; a stale pointer left by a remove is freed
+    again as soon as the allocator reuses the address for a live value (shared with C11)."""
+    facts = S.facts()
+    S.rule(rule, 'border_node::delete_at: on every path that retires the out-of-line value of the slot '
+                 '(push_value_container) the slot word is reset (link_or_value::init_lv) before the function returns; '
+                 'otherwise a later insert into the free slot inspects a retired (later: recycled) block')
+    Y = 'yakushima::'
+    da = facts.one(Y + 'border_node::delete_at')
+    res = {'retires': 0, 'bad': None}
+
+    def step(ctx, nd, st):
+        if is_call(nd, cq=Y + 'garbage_collection::push_value_container'):
+            res['retires'] += 1
+            return 'retired'
+        if is_call(nd, cq=Y + 'link_or_value::init_lv') and st == 'retired':
+            return 'cleared'
+        if nd['k'] == 'ReturnStmt':
+            if st == 'retired' and res['bad'] is None:
+                res['bad'] = ctx.witness()
+            return None
+        return st
+
+    ex = Explorer(da, step)
+    ex.run('live')
+    if any(s_ == 'retired' for s_ in ex.exit_states) and res['bad'] is None:
+        res['bad'] = ['(falls off the end of delete_at with the slot still holding the retired pointer)']
+    S.require(rule, 'retire sites of delete_at', res['retires'], 1)
+    S.ob(rule, da.qname, 'slot word after the value was retired', res['bad'] is None,
+         'reset before the function returns' if res['bad'] is None else
+         'the slot keeps the pointer of the retired value: the next insert into this slot reads the header of a block '
+         'that the GC has freed (and frees a live value once the address is reused)', loc=da.loc,
+         path=res['bad'] if isinstance(res['bad'], list) else None)
+
+
 def run(S):
     S.undecided = ['byte-for-byte equality of what is read back', 'numeric alignment of the returned address (relies on '
                    'the allocator honouring align_val_t)', 'absence of torn reads']
@@ -319,3 +355,4 @@ def run(S):
     rule_one(S)
     from checks.C01 import rule_var
     rule_var(S)
+    rule_fslot(S)
